@@ -151,11 +151,16 @@ class _SolveIVP(torch.autograd.Function):
 
         def pfunc2(t, y, tensor_params):
             if not grad_enabled:
-                # if graph is not constructed, then use the default tensor_params
+                # if graph is not constructed, then use detached copies of the tensor params
+                # (a parameter may have been computed from another one, so the
+                # derivatives must be taken w.r.t. independent tensors)
+                tensor_params_copy = [p.detach().requires_grad_() for p in tensor_params]
                 ycopy = y.detach().requires_grad_()  # [yi.detach().requires_grad_() for yi in y]
                 tcopy = t.detach().requires_grad_()
-                f = pfcn(tcopy, ycopy, *params)
-                return f, tcopy, ycopy, tensor_params
+                allparams_copy = param_sep.reconstruct_params(tensor_params_copy)
+                with pfcn.useobjparams(allparams_copy[nparams:]):
+                    f = pfcn(tcopy, ycopy, *allparams_copy[:nparams])
+                return f, tcopy, ycopy, tensor_params_copy
             else:
                 # if graph is constructed, then use the clone of the tensor params
                 # so that infinite loop of backward can be avoided
